@@ -4,6 +4,7 @@ void GMGPolar::implicitlyExtrapolatedMultigrid_V_Cycle(const int level_depth, Ve
                                                        Vector<double>& rhs, Vector<double>& residual)
 {
     assert(0 <= level_depth && level_depth < number_of_levels_ - 1);
+    VERIF_EV("CycleEnter", "\"kind\":0,\"ext\":1,\"depth\":%d", level_depth);
 
     auto start_MGC = std::chrono::high_resolution_clock::now();
 
